@@ -125,7 +125,7 @@ WireOf(policy) ==
 -----------------------------------------------------------------------------
 (* Reading a server: the listeners the relays are built from.  ServerConfig.Initialize appends the  *)
 (* legacy single listener (enableTCP / enableUDP / listen / natTimeoutSec / udp...BatchSize) behind *)
-(* the listener arrays (service/server.go:410-439).                                                 *)
+(* the listener arrays (service/server.go Initialize, "if sc.EnableTCP" / "if sc.EnableUDP").       *)
 
 TcpLs(s) == s.tcpL \o (IF s.leg.tcp THEN <<[net |-> "tcp", ipw |-> Omit, ipb |-> Omit, dipw |-> s.leg.dipw]>> ELSE <<>>)
 UdpLs(s) == s.udpL \o (IF s.leg.udp
@@ -244,7 +244,7 @@ EffClientWith(x, padO, padE) ==
      pad |-> IF Is2022(x.proto) /\ x.udp THEN PolicyName(x.pad, PadNames, padO, padE) ELSE "",
      swf |-> 0]
 \* the client the default route uses: the named one, nobody for "reject", and for an omitted / empty name the
-\* only client of that network if there is exactly one (router/router.go:33-61)
+\* only client of that network if there is exactly one (router/router.go Config.Router, the two switches at the top)
 DefaultOf(name, names) ==
     CASE name = "reject" -> ""
       [] NormS(name) = "" -> IF Cardinality(names) = 1 THEN CHOOSE n \in names : TRUE ELSE ""
@@ -273,6 +273,14 @@ Explicit(c) == [c EXCEPT !.servers = [i \in DOMAIN @ |-> ExplServer(@[i])],
                          !.clients = [i \in DOMAIN @ |-> ExplClient(@[i])],
                          !.clientsMode = IF @ = "omit" THEN "empty" ELSE @,
                          !.router = [@ EXCEPT !.defTCP = NormS(@), !.defUDP = NormS(@)]]
+
+\* Config.Migrate (service/service.go, "-fmtConf"): the legacy single-listener fields rewritten as listener arrays.
+\* The two spellings are the same configuration (MigrationPreserves).
+Migrated(c) ==
+    [c EXCEPT !.servers = [i \in DOMAIN @ |->
+        [@[i] EXCEPT !.tcpL = TcpLs(c.servers[i]), !.udpL = UdpLs(c.servers[i]),
+                     !.leg = [tcp |-> FALSE, udp |-> FALSE, nat |-> Omit, rb |-> Omit, sb |-> Omit, cap |-> Omit,
+                              bm |-> OmitS, dipw |-> FALSE]]]]
 
 -----------------------------------------------------------------------------
 (* 1. Documented structure: what a configuration made of documented values looks like *)
@@ -381,7 +389,7 @@ Script(c) ==
 -----------------------------------------------------------------------------
 (* 2. The loader, section by section.  Every operator answers "" or the reason of the refusal. *)
 
-\* encoding/json + UnmarshalText of the policy fields (jsoncfg.Load; ss2022/policy.go:160, 283)
+\* encoding/json + UnmarshalText of the policy fields (jsoncfg.Load; ss2022/policy.go PaddingPolicy / RejectPolicy UnmarshalText)
 ParseWhy(c) ==
     FirstOf(<<FirstWhy(LAMBDA i : IF NormS(c.servers[i].rej) \notin RejectNames \cup {""} THEN "parse: invalid reject policy"
                                    ELSE IF NormS(c.servers[i].pad) \notin PadNames \cup {""} THEN "parse: invalid padding policy"
@@ -389,7 +397,7 @@ ParseWhy(c) ==
               FirstWhy(LAMBDA i : IF NormS(c.clients[i].pad) \notin PadNames \cup {""} THEN "parse: invalid padding policy" ELSE "",
                        Len(c.clients))>>)
 
-\* service/service.go:152-182, service/client.go Initialize / TCPClient / UDPClient
+\* service/service.go Manager "for i := range sc.Clients"; service/client.go Initialize / checkAddresses / TCPClient / UDPClient
 ClientWhy(c, i) ==
     LET x == ClientsOf(c)[i]
         ev == x.ep \in {"ep", "both"}
@@ -408,7 +416,7 @@ ClientWhy(c, i) ==
          [] OTHER -> ""
 ClientsWhy(c) == FirstWhy(LAMBDA i : ClientWhy(c, i), Len(ClientsOf(c)))
 
-\* service/service.go:186-204, clientgroups/clientgroups.go AddClientGroup
+\* service/service.go Manager "for i := range sc.ClientGroups"; clientgroups/clientgroups.go AddClientGroup
 GroupWhy(c, k) ==
     LET g == c.groups[k]
     IN CASE g.name \in {x.name : x \in Ran(ClientsOf(c))} -> "groups: same name as a client"
@@ -421,7 +429,7 @@ GroupWhy(c, k) ==
          [] OTHER -> ""
 GroupsWhy(c) == FirstWhy(LAMBDA k : GroupWhy(c, k), Len(c.groups))
 
-\* service/service.go:206-223, dns/dns.go NewSimpleResolver
+\* service/service.go Manager "for i := range sc.DNS"; dns/dns.go NewSimpleResolver
 ResolverWhy(c, k) ==
     LET d == c.dns[k]
     IN CASE \E j \in 1 .. k - 1 : c.dns[j].name = d.name -> "dns: duplicate DNS resolver name"
@@ -435,7 +443,7 @@ ResolverWhy(c, k) ==
          [] OTHER -> ""
 DnsWhy(c) == FirstWhy(LAMBDA k : ResolverWhy(c, k), Len(c.dns))
 
-\* service/service.go:225-233
+\* service/service.go Manager, serverIndexByName loop
 ServerNamesWhy(c) == IF NoDup(NamesOf(c.servers)) THEN "" ELSE "servers: duplicate server name"
 
 \* router/router.go Config.Router, router/route.go RouteConfig.Route
@@ -518,7 +526,7 @@ Section(name, from, to, w) ==
        IN /\ IF r = "" THEN pc' = to /\ why' = why ELSE pc' = "refused" /\ why' = r
           /\ act' = [n |-> name, out |-> IF r = "" THEN "ok" ELSE r]
 
-\* jsoncfg.Load (cmd/shadowsocks-go/main.go:58) and the first lines of Config.Manager
+\* jsoncfg.Load (cmd/shadowsocks-go/main.go) and the first lines of Config.Manager ("no services to start")
 Parse ==
     /\ Section("Parse", "new", "parsed", FirstOf(<<ParseWhy(cfg), IF Len(cfg.servers) = 0 THEN "no services to start" ELSE "">>))
     /\ UNCHANGED <<cfg, eff, step>>
@@ -594,6 +602,14 @@ NoCrash == pc # "crashed"
 
 \* the loader is not stricter than the documentation
 DocumentedIsAccepted == pc = "refused" => Expect(cfg) # "accept"
+
+\* legacy single-listener fields and listener arrays are two spellings of one configuration
+MigrationPreserves ==
+    pc = "new" => /\ Effective(Migrated(cfg)) = Effective(cfg)
+                  /\ Valid(Migrated(cfg)) = Valid(cfg)
+                  /\ Expect(Migrated(cfg)) = Expect(cfg)
+                  /\ ImplLoad(Migrated(cfg)) = ImplLoad(cfg)
+                  /\ Flows(Migrated(cfg)) = Flows(cfg)
 
 \* the one-expression loader and the sectioned one are the same function
 LoaderAgrees == /\ pc = "refused" => why = ImplLoad(cfg)
